@@ -147,7 +147,7 @@ prop(
 prop(
     "C07", level="other", selftest=["block_diagonalization", "second_quantization", "number_ordered_form", "algorithms"],
     rules=[main_e1, wf_main, e12.rule_operator_mode, e2b.rule_taylor, e7.rule_solve_scalar, e10.rule_binary_number_cancellation, e1b.rule_projection_pairs, e1b.rule_scope_flags,
-           e10.rule_operator_order, e10.rule_fermion_crossing, e10.rule_shift_table, e10.rule_linear_structure, e10.rule_number_operator_power, e10.rule_operator_sort_consistency, e10.rule_placeholder_tests,
+           e10.rule_operator_order, e10.rule_fermion_crossing, e10.rule_shift_table, e10.rule_linear_structure, e10.rule_number_operator_power, e10.rule_operator_sort_consistency, e10.rule_placeholder_tests, e10.rule_expand_by_identity,
            e2c.rule_product_by_order, e2c.rule_cauchy_wiring, e2c.rule_adjoint_fill, tv_shipped, e9.rule_runtime_support, e9.rule_exec_scope, e9.rule_adjoint_binding, start_data_shipped,
            e11.rule_helpers, e4.rule_loop_carried_state, e4.rule_memo_key],
     explanation=(
@@ -162,7 +162,7 @@ prop(
         "anti-Hermitian [E7.solve_scalar]; the selection closures apply one operator mask with opposite keep flags, and "
         "filter_terms(c, True) + filter_terms(c, False) is the whole form [E1.projection, E11]; the product, adjoint and "
         "sum of NumberOrderedForm have the structure of an associative *-algebra as far as E10 decides it (operator order, "
-        "fermionic crossing sets, shift table, linear structure). NOT decided, and not claimed: the comparison of matrix "
+        "fermionic crossing sets, shift table, linear structure; operator lists merged by operator identity [E10.expand]). NOT decided, and not claimed: the comparison of matrix "
         "elements between Fock states with a block diagonalization of truncated matrices (the first sentence of C07), "
         "NumberOrderedForm.from_expr on arbitrary expression trees, `_poly_simplify` and sympy simplification being value-"
         "preserving."),
@@ -173,7 +173,7 @@ prop(
 prop(
     "C08", level="other", selftest=["number_ordered_form"],
     rules=[e10.rule_operator_order, e10.rule_fermion_crossing, e10.rule_shift_table, e10.rule_linear_structure, e10.rule_number_operator_power, e10.rule_operator_sort_consistency,
-           e10.rule_placeholder_tests, e4.rule_loop_carried_state, memo_key_nof],
+           e10.rule_placeholder_tests, e10.rule_expand_by_identity, e4.rule_loop_carried_state, memo_key_nof],
     explanation=(
         "Necessary conditions of faithfulness decided from number_ordered_form.py: (i) the order in which __mul__ "
         "applies the right operand's creation / annihilation operators equals the order as_expr denotes (extracted and "
@@ -185,7 +185,9 @@ prop(
         "by everything the cached value reads. Not decided: from_expr on arbitrary expression "
         "trees, non-integer powers, simplification."
         " Stored coefficients are written over placeholder symbols: a test for NumberOperator objects on one of them is reported as "
-        "a dead guard [E10.placeholders]."),
+        "a dead guard [E10.placeholders]. (viii) _expand_operators, through which sums, products and masks of forms with different "
+        "mode sets pass, places every power by the identity of its operator: a return path that copies the raw power tuple "
+        "contiguously without a per-operator lookup and without a guard on the new operator list is reported [E10.expand]."),
 )
 
 prop(
